@@ -1,4 +1,7 @@
 (* C02 -- parse() inverts every supported unambiguous date/time rendering.
+   CORE file: model/spec theorems, one representative parse_render theorem per template family, the open
+   findings' refutations and the tzlocal theorems.  Every further parse_render_<template> theorem is in
+   coq/props/C02x.v (same conventions; compiled by `make`, by the thorough tier and by setup).
    Statements only; proofs are in parse/YearThm.v and parse/Render*.v over the hand model. *)
 From Coq Require Import ZArith List Bool.
 From V Require Import base.Cal gen.ParseTables parse.Lex parse.Prim parse.Ymd parse.Parse parse.Build
@@ -34,14 +37,6 @@ Theorem C02_parse_render_numeric_date_time : forall f j tf d o df cy loc n0 n1 y
   = OutOk (expected_dt (TDT f j tf ONone) d df) ZNaive 0 false [].
 Proof. exact parse_render_numeric_date_time_lemma. Qed.
 Print Assumptions C02_parse_render_numeric_date_time.
-
-Theorem C02_parse_render_us_date_time : forall j tf d o df cy loc n0 n1 ig,
-  In j plain_joiners -> In tf plain_tforms ->
-  valid_dt d = true -> valid_dt df = true ->
-  parse (opts_df0 false ig df cy loc n0 n1) (render (TDT DUS j tf ONone) d o)
-  = OutOk (expected_dt (TDT DUS j tf ONone) d df) ZNaive 0 false [].
-Proof. exact parse_render_us_date_time_lemma. Qed.
-Print Assumptions C02_parse_render_us_date_time.
 
 (* non-vacuity: the hypotheses are satisfiable and the rendering is the expected text *)
 Example C02_render_example :
@@ -103,14 +98,6 @@ Theorem C02_parse_render_mon_dd_yyyy : forall jt d o df cy loc n0 n1 yf ig,
 Proof. exact parse_render_mon_dd_yyyy_lemma. Qed.
 Print Assumptions C02_parse_render_mon_dd_yyyy.
 
-Theorem C02_parse_render_month_dd_yyyy : forall jt d o df cy loc n0 n1 yf ig,
-  In jt comma_tails ->
-  valid_dt d = true -> valid_dt df = true -> 100 <= d_y d ->
-  parse (opts_df0 yf ig df cy loc n0 n1) (render (TDT DMonthDY (fst jt) (snd jt) ONone) d o)
-  = OutOk (expected_dt (TDT DMonthDY (fst jt) (snd jt) ONone) d df) ZNaive 0 false [].
-Proof. exact parse_render_month_dd_yyyy_lemma. Qed.
-Print Assumptions C02_parse_render_month_dd_yyyy.
-
 (* 9 templates: YYYYMMDD, YYYYMMDD{T, space}HHMM[SS], YYYYMMDDHHMM[SS] (12 / 14 digits),
    YYYYMMDDTHH:MM[:SS] *)
 Theorem C02_parse_render_compact : forall jt d o df cy loc n0 n1 yf ig,
@@ -128,21 +115,6 @@ Theorem C02_parse_render_12h_hm : forall spaced d o df cy loc n0 n1 yf ig,
   = OutOk (expected_dt (TDT DIso JSpace (T12HM spaced) ONone) d df) ZNaive 0 false [].
 Proof. exact parse_render_12h_hm_lemma. Qed.
 Print Assumptions C02_parse_render_12h_hm.
-
-Theorem C02_parse_render_12h_hms : forall spaced d o df cy loc n0 n1 yf ig,
-  valid_dt d = true -> valid_dt df = true ->
-  parse (opts_df0 yf ig df cy loc n0 n1) (render (TDT DIso JSpace (T12HMS spaced) ONone) d o)
-  = OutOk (expected_dt (TDT DIso JSpace (T12HMS spaced) ONone) d df) ZNaive 0 false [].
-Proof. exact parse_render_12h_hms_lemma. Qed.
-Print Assumptions C02_parse_render_12h_hms.
-
-(* 2 templates, the one named in the property text: "Mon DD, YYYY hh:MM AM" / "... hh:MMPM" *)
-Theorem C02_parse_render_mon_dd_yyyy_12h : forall spaced d o df cy loc n0 n1 yf ig,
-  valid_dt d = true -> valid_dt df = true -> 100 <= d_y d ->
-  parse (opts_df0 yf ig df cy loc n0 n1) (render (TDT DMonDY JSpace (T12HM spaced) ONone) d o)
-  = OutOk (expected_dt (TDT DMonDY JSpace (T12HM spaced) ONone) d df) ZNaive 0 false [].
-Proof. exact parse_render_mon_dd_yyyy_12h_lemma. Qed.
-Print Assumptions C02_parse_render_mon_dd_yyyy_12h.
 
 (* 8 templates x sign: YYYY-MM-DD{T, space}{HH:MM, HH:MM:SS}{+HH:MM, -HH:MM, +HH, -HH}, offsets
    -23:59..+23:59: aware with exactly the rendered offset (UTC when zero); "UTC" not a local name *)
@@ -198,62 +170,7 @@ Theorem C02_parse_render_flag_dates : forall f jt d o df cy loc n0 n1 ig,
 Proof. exact parse_render_flag_dates_lemma. Qed.
 Print Assumptions C02_parse_render_flag_dates.
 
-(* 4 templates x sign: YYYY-MM-DD{T, space}{HH:MM, HH:MM:SS}{+HHMM, -HHMM} *)
-Theorem C02_parse_render_iso_offset4 : forall j tf d o df cy loc n0 n1 yf ig,
-  In j plain_joiners -> In tf plain_tforms ->
-  valid_dt d = true -> valid_dt df = true -> wf_off o = true -> smem utc_name loc = false ->
-  parse (opts_df0 yf ig df cy loc n0 n1) (render (TDT DIso j tf OHHMM) d o)
-  = OutOk (expected_dt (TDT DIso j tf OHHMM) d df)
-          (if ig then ZNaive else zone_of_off (off_secs o)) 0 false [].
-Proof. exact parse_render_iso_offset4_lemma. Qed.
-Print Assumptions C02_parse_render_iso_offset4.
-
-(* 2 templates: YYYY-MM-DD hh AM / hhAM (hour only; minute, second, microsecond from the default) *)
-Theorem C02_parse_render_12h_h : forall spaced d o df cy loc n0 n1 yf ig,
-  valid_dt d = true -> valid_dt df = true ->
-  parse (opts_df0 yf ig df cy loc n0 n1) (render (TDT DIso JSpace (T12H spaced) ONone) d o)
-  = OutOk (expected_dt (TDT DIso JSpace (T12H spaced) ONone) d df) ZNaive 0 false [].
-Proof. exact parse_render_12h_h_lemma. Qed.
-Print Assumptions C02_parse_render_12h_h.
-
-(* UTC designators after further forms (UTC / GMT not local zone names):
-   YYYY/MM/DD{T, space}{HH:MM, HH:MM:SS} (12), MM/DD/YYYY ... (12, yearfirst False), YYYY-MM-DD{T, space}HH:MM (6),
-   YYYYMMDD{T, space}HHMM[SS] (12), each followed by Z / " UTC" / " GMT" *)
-Theorem C02_parse_render_slash_utc : forall f j tf ofm d o df cy loc n0 n1 yf ig,
-  In f [DSlashYMD] -> In j plain_joiners -> In tf plain_tforms -> In ofm [OZ; OUTC; OGMT] ->
-  valid_dt d = true -> valid_dt df = true ->
-  smem [85; 84; 67] loc = false -> smem [71; 77; 84] loc = false ->
-  parse (opts_df0 yf ig df cy loc n0 n1) (render (TDT f j tf ofm) d o)
-  = OutOk (expected_dt (TDT f j tf ofm) d df) (if ig then ZNaive else ZUTC) 0 false [].
-Proof. exact parse_render_slash_utc_lemma. Qed.
-Print Assumptions C02_parse_render_slash_utc.
-
-Theorem C02_parse_render_us_utc : forall f j tf ofm d o df cy loc n0 n1 ig,
-  In f [DUS] -> In j plain_joiners -> In tf plain_tforms -> In ofm [OZ; OUTC; OGMT] ->
-  valid_dt d = true -> valid_dt df = true ->
-  smem [85; 84; 67] loc = false -> smem [71; 77; 84] loc = false ->
-  parse (opts_df0 false ig df cy loc n0 n1) (render (TDT f j tf ofm) d o)
-  = OutOk (expected_dt (TDT f j tf ofm) d df) (if ig then ZNaive else ZUTC) 0 false [].
-Proof. exact parse_render_us_utc_lemma. Qed.
-Print Assumptions C02_parse_render_us_utc.
-
-Theorem C02_parse_render_iso_hm_utc : forall f j tf ofm d o df cy loc n0 n1 yf ig,
-  In f [DIso] -> In j plain_joiners -> In tf [THM] -> In ofm [OZ; OUTC; OGMT] ->
-  valid_dt d = true -> valid_dt df = true ->
-  smem [85; 84; 67] loc = false -> smem [71; 77; 84] loc = false ->
-  parse (opts_df0 yf ig df cy loc n0 n1) (render (TDT f j tf ofm) d o)
-  = OutOk (expected_dt (TDT f j tf ofm) d df) (if ig then ZNaive else ZUTC) 0 false [].
-Proof. exact parse_render_iso_hm_utc_lemma. Qed.
-Print Assumptions C02_parse_render_iso_hm_utc.
-
-Theorem C02_parse_render_compact_utc : forall jt ofm d o df cy loc n0 n1 yf ig,
-  In jt czone_tails -> In ofm [OZ; OUTC; OGMT] ->
-  valid_dt d = true -> valid_dt df = true ->
-  smem [85; 84; 67] loc = false -> smem [71; 77; 84] loc = false ->
-  parse (opts_df0 yf ig df cy loc n0 n1) (render (TDT DCompact (fst jt) (snd jt) ofm) d o)
-  = OutOk (expected_dt (TDT DCompact (fst jt) (snd jt) ofm) d df) (if ig then ZNaive else ZUTC) 0 false [].
-Proof. exact parse_render_compact_utc_lemma. Qed.
-Print Assumptions C02_parse_render_compact_utc.
+(* YYYYMMDD{T, space}HHMM[SS] followed by +HH:MM / +HH / +HHMM (either sign) *)
 
 (* F-C02-padyear: inside the complement of the guard the round trip fails on the faithful model
    ("25 Sep 0099" and "Sat Sep 25 10:36:28 0099" are read as 1999) *)
@@ -267,3 +184,115 @@ Theorem C02_padyear_refuted :
   expected_dt TCtime pad_dt (o_default pad_opts) = mkDt 99 9 25 10 36 28 0.
 Proof. exact padyear_refuted_lemma. Qed.
 Print Assumptions C02_padyear_refuted.
+
+(* F-C02-tzlocal-range: tz.tzlocal can fail (parse/Local.v).  Every parse_render statement above is about
+   `parse`, the runs in which tzlocal.tzname() answers; parse_lz is the model with the failure.
+   transfer: any statement parse o s = OutOk d ... holds of parse_lz when tzlocal answers at d (guard), and
+   without a guard when the text does not resolve to the local zone (all theorems above: their zone is never
+   ZLocal, for every value of the oracle bit); inside the complement of the guard parse raises OverflowError *)
+From V Require Import parse.ZoneThm parse.Local.
+
+Theorem C02_tzlocal_transfer : forall o lz s d z f w toks,
+  parse o s = OutOk d z f w toks -> tzlocal_raises lz d = false -> parse_lz o lz s = OutOk d z f w toks.
+Proof. exact parse_lz_transfer. Qed.
+Print Assumptions C02_tzlocal_transfer.
+
+Theorem C02_tzlocal_not_local : forall o lz s d z f w toks,
+  parse (set_nm0 o true) s = OutOk d z f w toks -> z <> ZLocal -> parse_lz o lz s = parse o s.
+Proof. exact parse_lz_not_local. Qed.
+Print Assumptions C02_tzlocal_not_local.
+
+Theorem C02_tzlocal_local_raises : forall o lz s d f w toks,
+  parse (set_nm0 o true) s = OutOk d ZLocal f w toks -> tzlocal_raises lz d = true -> parse_lz o lz s = OutOverflow.
+Proof. exact parse_lz_local_raises. Qed.
+Print Assumptions C02_tzlocal_local_raises.
+
+(* "0001-01-01 00:03:00 GMT" under TZ=GMT0BST (time.tzname = GMT, BST; dst_saved = 3600 s; winter) *)
+Theorem C02_tzlocal_range_refuted :
+  valid_dt lzr_dt = true /\
+  render (TDT DIso JSpace THMS OGMT) lzr_dt (mkOff true 0 0)
+    = [48; 48; 48; 49; 45; 48; 49; 45; 48; 49; 32; 48; 48; 58; 48; 51; 58; 48; 48; 32; 71; 77; 84] /\
+  parse lzr_opts (render (TDT DIso JSpace THMS OGMT) lzr_dt (mkOff true 0 0)) = OutOk lzr_dt ZLocal 0 false [] /\
+  tzlocal_raises lzr_zone lzr_dt = true /\
+  parse_lz lzr_opts lzr_zone (render (TDT DIso JSpace THMS OGMT) lzr_dt (mkOff true 0 0)) = OutOverflow.
+Proof. exact tzlocal_range_refuted_lemma. Qed.
+Print Assumptions C02_tzlocal_range_refuted.
+
+(* a proved template family WITH a local zone name: YYYY-MM-DD{T, space}HH:MM[:SS] UTC / GMT where that name
+   is one of time.tzname.  On `parse` (tzname() answers) the result carries the local zone (UTC when the zone
+   does not report the name at that wall time); on parse_lz the round trip holds exactly under the guard *)
+From V Require Import parse.RenderLocal.
+
+Theorem C02_parse_render_iso_local_lz : forall j tf ofm d o df cy loc n0 n1 yf ig lz,
+  In j plain_joiners -> In tf [THM; THMS] -> In ofm [OUTC; OGMT] ->
+  valid_dt d = true -> valid_dt df = true ->
+  smem (local_name ofm) loc = true ->
+  parse_lz (opts_df0 yf ig df cy loc n0 n1) lz (render (TDT DIso j tf ofm) d o)
+  = if negb ig && tzlocal_raises lz (expected_dt (TDT DIso j tf ofm) d df) then OutOverflow
+    else OutOk (expected_dt (TDT DIso j tf ofm) d df) (fst (local_zone_res ig n0 n1)) (snd (local_zone_res ig n0 n1)) false [].
+Proof. exact parse_lz_render_iso_local_lemma. Qed.
+Print Assumptions C02_parse_render_iso_local_lz.
+
+(* ------------------------------------------------------------------------------------------------
+   Model <-> source (iso builder, notes/parse_gen.md).  coq/gen/ParseGen.v is regenerated from
+   /repo/src/dateutil/parser/_parser.py by the fail-closed translator harness/gen_parse.py on every run; each
+   translated function equals the corresponding function of the hand model for all inputs (parse/ParseGenThm*.v;
+   statements in parse/ParseGenProps.v).  The untranslated parts of _parser.py are pinned by AST hash in the translator:
+   any edit of them, or a translated function whose meaning changes, makes these theorems fail. *)
+From V Require Import parse.ParseGenLib gen.ParseGen parse.ParseGenThm parse.ParseGenThm2 parse.ParseGenProps.
+
+Theorem C02_gen_parserinfo_lookups : gen_parserinfo_lookups_stmt.
+Proof. exact gen_parserinfo_lookups. Qed.
+Print Assumptions C02_gen_parserinfo_lookups.
+
+Theorem C02_gen_convertyear : gen_convertyear_stmt.
+Proof. exact pg_convertyear_eq. Qed.
+Print Assumptions C02_gen_convertyear.
+
+Theorem C02_gen_validate : gen_validate_stmt.
+Proof. exact pg_validate_eq. Qed.
+Print Assumptions C02_gen_validate.
+
+Theorem C02_gen_could_be_day : gen_could_be_day_stmt.
+Proof. exact pg_could_be_day_eq. Qed.
+Print Assumptions C02_gen_could_be_day.
+
+Theorem C02_gen_resolve_ymd : gen_resolve_ymd_stmt.
+Proof. exact pg_resolve_ymd_eq. Qed.
+Print Assumptions C02_gen_resolve_ymd.
+
+Theorem C02_gen_append : gen_append_stmt.
+Proof. exact gen_append. Qed.
+Print Assumptions C02_gen_append.
+
+Theorem C02_gen_ampm : gen_ampm_stmt.
+Proof. exact gen_ampm. Qed.
+Print Assumptions C02_gen_ampm.
+
+Theorem C02_gen_could_be_tzname : gen_could_be_tzname_stmt.
+Proof. exact pg_could_be_tzname_eq. Qed.
+Print Assumptions C02_gen_could_be_tzname.
+
+Theorem C02_gen_parse_min_sec : gen_parse_min_sec_stmt.
+Proof. exact pg_parse_min_sec_eq. Qed.
+Print Assumptions C02_gen_parse_min_sec.
+
+Theorem C02_gen_parsems : gen_parsems_stmt.
+Proof. exact pg_parsems_eq. Qed.
+Print Assumptions C02_gen_parsems.
+
+Theorem C02_gen_assign_hms : gen_assign_hms_stmt.
+Proof. exact pg_assign_hms_eq. Qed.
+Print Assumptions C02_gen_assign_hms.
+
+Theorem C02_gen_find_hms_idx : gen_find_hms_idx_stmt.
+Proof. exact pg_find_hms_idx_eq. Qed.
+Print Assumptions C02_gen_find_hms_idx.
+
+Theorem C02_gen_parse_hms : gen_parse_hms_stmt.
+Proof. exact pg_parse_hms_eq. Qed.
+Print Assumptions C02_gen_parse_hms.
+
+Theorem C02_gen_parse_numeric_token : gen_parse_numeric_stmt.
+Proof. exact pg_parse_numeric_eq. Qed.
+Print Assumptions C02_gen_parse_numeric_token.
